@@ -232,8 +232,50 @@ def sdiff(e, s, table, unsig=False):
     return d(e)
 
 
+class _Timeout(BaseException):
+    pass
+
+
+_TIMER_ACTIVE = False
+
+
+def _with_time_limit(seconds, fn, *args):
+    """run fn(*args); None when it does not finish within the limit (computer algebra on a
+    large residual can take arbitrarily long; an unfinished normalisation is 'undecided')"""
+    import signal
+    import threading
+
+    global _TIMER_ACTIVE
+    if threading.current_thread() is not threading.main_thread() or not hasattr(signal, "setitimer") or _TIMER_ACTIVE:
+        return fn(*args)
+    _TIMER_ACTIVE = True
+
+    def handler(signum, frame):
+        raise _Timeout()
+
+    old = signal.signal(signal.SIGALRM, handler)
+    signal.setitimer(signal.ITIMER_REAL, seconds)
+    try:
+        return fn(*args)
+    except _Timeout:
+        return None
+    finally:
+        signal.setitimer(signal.ITIMER_REAL, 0)
+        signal.signal(signal.SIGALRM, old)
+        _TIMER_ACTIVE = False
+
+
+EQUAL_TIME_LIMIT = 25.0
+
+
 def equal(a, b, table):
     """True / False / None(undecided) for a == b as expressions."""
+    if a is None or b is None:
+        return None
+    return _with_time_limit(EQUAL_TIME_LIMIT, _equal, a, b, table)
+
+
+def _equal(a, b, table):
     if a is None or b is None:
         return None
     if isinstance(a, sp.MatrixBase) or isinstance(b, sp.MatrixBase):
@@ -246,7 +288,7 @@ def equal(a, b, table):
                 return None
         res = True
         for x, y in zip(list(a), list(b)):
-            r = equal(x, y, table)
+            r = _equal(x, y, table)
             if r is False:
                 return False
             if r is None:
@@ -275,7 +317,25 @@ def equal(a, b, table):
         atoms = num.atoms(sp.Function)
         if not atoms and num.is_polynomial(*num.free_symbols):
             return False
-        if all(isinstance(f, (sp.exp, sp.sin, sp.cos, sp.tan)) or f.func == SIG for f in atoms):
+        # atoms that are algebraically independent of each other and of the symbols for generic
+        # inputs: transcendental functions of different arguments, full reductions (after
+        # norm_sigma), slices of array-valued expressions, black-box helper results
+        if any(f.func in (CROSS, SIGA) for f in atoms):
+            # bilinear / linear normal form first: afterwards distinct cross products of atomic
+            # vectors (arguments in canonical order) are independent of each other
+            num = sp.expand(lin_expand(num))
+            if num == 0:
+                return True
+            atoms = num.atoms(sp.Function)
+
+        def indep(f):
+            if isinstance(f, (sp.exp, sp.sin, sp.cos, sp.tan)) or f.func == SIG or f.func == SUB or f.func.__name__.startswith("H_"):
+                return True
+            if f.func == CROSS:
+                return all(a_.is_Symbol for a_ in f.args)
+            return False
+
+        if all(indep(f) for f in atoms):
             # substitute the transcendental atoms by fresh symbols: still a non-zero polynomial?
             reps = {f: sp.Dummy("t%d" % i) for i, f in enumerate(sorted(atoms, key=str))}
             n2 = sp.expand(num.subs(reps))
